@@ -37,6 +37,9 @@ def r1_separability(ctx):
         for t in ind_terms:
             between = ({t} | g.ancestors(t)) & set().union(*[g.descendants(i) | {i} for i in ind_inputs])
             bad = sorted(b for b in between if axes.get(b) != "IND")
+            if bad and all(str(axes.get(b)).startswith("UNKNOWN") for b in bad):
+                ctx.unknown("C07.R1", where, None, f"{g.cfg.name}: the axis-0 domain could not evaluate {bad[:3]} ({str(axes.get(bad[0]))[:120]})", construct=f"per-individual term {t}", instance=g.cfg.name)
+                continue
             ctx.check(not bad, "C07.R1", where, None, f"{g.cfg.name}: `{t}` and the {len(between)} individual-level nodes it is computed from are row-wise",
                       f"{g.cfg.name}: `{t}` is computed through {bad[:3]} (axis-0 {[axes.get(b) for b in bad[:3]]}): an individual's term depends on other individuals",
                       construct=f"per-individual term {t}", instance=g.cfg.name)
@@ -232,6 +235,15 @@ def rules(ctx):
     # maximum, mean, normalisation ...) enters the acceptance ratio (same rule as C03.R5b)
     from .c03 import r5b_no_cross_individual_weights
     r5b_no_cross_individual_weights(ctx, rid="C07.R10")
+    # ... and the per-individual outcome of the decision is what is acted upon: a rewriting of it under a cohort-wide condition makes an
+    # individual's decision depend on the others (same rule as C03.R2b)
+    from .c03 import r2b_outcome_used_as_drawn
+    r2b_outcome_used_as_drawn(ctx, rid="C07.R11")
+    # "personalized parameters depend only on that individual's own data": nothing of one cohort stays in the model for the next call -
+    # after its cleaning the sampling-based personalisation writes into a clone only (same rule as C13.R3b)
+    from .c13 import r3b_after_cleaning
+    r3b_after_cleaning(ctx, state_writes(ctx), rid="C07.R12", why="the model keeps that cohort's data and estimates: the next personalisation on the same model starts every subject from "
+                       "another individual's values, so a subject's result depends on the data of others")
     ctx.trust("joblib.Parallel preserves the order of its generator and runs each call on the arguments given")
     ctx.assume("population tensors broadcast along trailing axes (never aligned with the individual axis by coincidence)")
 
